@@ -72,9 +72,11 @@ def ds_equal(a, b):
     return True
 
 
-def make_comp(model, unpacked=False, vectorized=False):
+def make_comp(model, unpacked=False, vectorized=False, mf=False):
     x0, x1 = Variable('x0', domain=(0.0, 1.0)), Variable('x1', domain=(-1.0, 1.0))
     kw = dict(call_unpacked=True, ret_unpacked=True) if unpacked else {}
+    if mf:
+        kw['model_fidelity'] = (2,)
     return Component(model, inputs=[x0, x1], outputs=[Variable('y0'), Variable('y1')], name='c', vectorized=vectorized, **kw)
 
 
@@ -109,6 +111,34 @@ def run_call_model(ctx, res, seed):
             if not ds_equal(ref, got):
                 res.failures.append({'kind': 'process-pool-result-differs-from-serial', 'input': {**info, 'model': mname}})
             res.hit('process-pool')
+    # mixed model fidelities inside one batch (as every activation of a multi-fidelity component submits): each task must see
+    # ITS OWN fidelity whatever the start / completion order, also when it starts after all submissions were made
+    alphas = [(rng.randrange(3),) for _ in range(N)]
+    if len(set(alphas)) == 1:
+        alphas[-1] = ((alphas[0][0] + 1) % 3,)
+    comp = make_comp(M.mf_model, mf=True)
+    ref = comp.call_model(dict(x), model_fidelity=list(alphas))
+    single = [comp.call_model({k: v[i:i + 1] for k, v in x.items()}, model_fidelity=alphas[i]) for i in range(N)]
+    for k in ('y0', 'y1'):
+        if not np.array_equal(np.asarray(ref[k]), np.concatenate([np.atleast_1d(s_[k]) for s_ in single])):
+            res.failures.append({'kind': 'batched-mixed-fidelity-differs-from-one-at-a-time', 'input': {**info, 'alphas': alphas}})
+    orders = [tuple(range(N)), tuple(reversed(range(N)))] + [tuple(rng.sample(range(N), N)) for _ in range(4)]
+    for perm in orders:
+        ex = ScheduledExecutor(lambda n, perm=perm: perm if n == len(perm) else list(range(n)))
+        got = comp.call_model(dict(x), model_fidelity=list(alphas), executor=ex)
+        if not ds_equal(ref, got):
+            res.failures.append({'kind': 'executor-result-differs-from-serial', 'input': {**info, 'model': 'mixed-fidelity', 'alphas': alphas,
+                                                                                         'completion_order': list(perm)},
+                                 'observed': {k: np.asarray(v).tolist() for k, v in got.items() if k != 'errors'},
+                                 'expected': {k: np.asarray(v).tolist() for k, v in ref.items() if k != 'errors'}})
+        res.hit('mixed-fidelity-schedule')
+    for mk in (lambda: ThreadPoolExecutor(max_workers=2), lambda: ProcessPoolExecutor(max_workers=2)):
+        with mk() as ex:
+            got = comp.call_model(dict(x), model_fidelity=list(alphas), executor=ex, delay_scale=0.005)
+        if not ds_equal(ref, got):
+            res.failures.append({'kind': 'pool-result-differs-from-serial', 'input': {**info, 'model': 'mixed-fidelity', 'alphas': alphas,
+                                                                                     'pool': type(ex).__name__}})
+        res.hit('mixed-fidelity-pool')
     # three execution paths / two signatures agree
     ref = make_comp(M.slow_model).call_model(dict(x))
     vec = make_comp(M.slow_model_vec, vectorized=True).call_model(dict(x))
@@ -127,8 +157,12 @@ def train(spec_seed, executor, steps, delay=0.0):
     x0, x1 = Variable('x0', domain=(0.0, 1.0)), Variable('x1', domain=(-1.0, 1.0))
     u, v = Variable('u', domain=(0.5, 2.5)), Variable('v')
     sgk = dict(opt_args={'locally_biased': False, 'maxfun': 60})
-    c1 = Component(M.chain_m1, inputs=[x0, x1], outputs=[u], name='c1', data_fidelity=(2, 2), training_data=SparseGrid(**sgk),
-                   delay_scale=delay)
+    if spec_seed % 2:   # multi-fidelity first component: activation batches mix fidelities
+        c1 = Component(M.mf_chain_m1, inputs=[x0, x1], outputs=[u], name='c1', model_fidelity=(2,), data_fidelity=(2, 2),
+                       training_data=SparseGrid(**sgk), delay_scale=delay)
+    else:
+        c1 = Component(M.chain_m1, inputs=[x0, x1], outputs=[u], name='c1', data_fidelity=(2, 2), training_data=SparseGrid(**sgk),
+                       delay_scale=delay)
     c2 = Component(M.chain_m2, inputs=[u, x1], outputs=[v], name='c2', data_fidelity=(2, 2), training_data=SparseGrid(**sgk),
                    delay_scale=delay)
     system = System(c1, c2, name='par')
@@ -171,12 +205,12 @@ def run(ctx: core.Ctx, only=None) -> core.Result:
     res = core.Result()
     res.rule = ('call_model on batches of 3-9 samples: ALL completion permutations (batch <= 4) or 12 random ones through a '
                 'schedule-controlling Executor, thread pools with 1/3/8 workers and per-task delays, a process pool; models '
-                'that raise for some inputs (error positions compared); packed/unpacked/vectorised paths; fit()+predict() of a '
+                'that raise for some inputs (error positions compared); batches mixing model fidelities; packed/unpacked/vectorised paths; fit()+predict() of a '
                 '2-component chain with scheduled (reversed, random) executors and a thread pool (process pool in the thorough '
                 'tier) vs executor=None: learned state and predictions identical. Every case is non-trivial.')
     items = [o.get('input', o) for o in only] if only is not None else core.corpus_cases('C15') + \
         [{'call_model_seed': ctx.rng.randrange(10 ** 6)} for _ in range(ctx.scale(3, 20))] + \
-        [{'fit_seed': ctx.rng.randrange(10 ** 6)} for _ in range(ctx.scale(1, 6))]
+        [{'fit_seed': 2 * ctx.rng.randrange(10 ** 6) + k % 2} for k in range(ctx.scale(2, 6))]
     for it in items:
         with core.guarded(res, 'scenario-raised', it):
             if 'call_model_seed' in it or 'batch' in it:
